@@ -25,7 +25,7 @@ func init() {
 			"an error acknowledgement and a counterparty channel close are injected by the shim (a provider never produces a packet an honest consumer rejects)",
 			"the slash ack of the fixture is seeded through the keeper (its real path is judged by C08)",
 		}, commonAssumptions...), Budget: budget,
-			Units:   []Unit{Search{Sc: Stop{Variant: "base"}, Depth: depth}},
-			MustSee: []string{"stopped-by:remove", "stopped-by:timeout", "stopped-by:errorack", "stopped-by:P.block", "checked-while-stopped", "deleted"}}
+			Units:   []Unit{Search{Sc: Stop{Variant: "base"}, Depth: depth}, Search{Sc: Stop{Variant: "latechan"}, Depth: depth}},
+			MustSee: []string{"stopped-by:remove", "stopped-by:timeout", "stopped-by:errorack", "stopped-by:P.block", "checked-while-stopped", "deleted", "channel-opened-after-stop"}}
 	})
 }
